@@ -82,9 +82,10 @@ theorem sqrtDiff_of_close (Q1 Q2 Y1 Y2 : Vec3) (epsSq T : Rat) (h1 : distSq Q1 Y
 /-- **rigid ⟹ distances.** An ε-copy in the sense of the property (`epsSq = ε²`, `4ε² ≤ atol²`, i.e. `2ε ≤ atol`)
     satisfies the search's pairwise distance test. -/
 theorem rigid_implies_dist (inp : FindInput) (epsSq : Rat) (h4 : 4 * epsSq ≤ inp.atol * inp.atol)
-    (g : Nat → Nat) (n : Nat → Int × Int × Int) (h : RigidOccurrence inp epsSq g n) : DistOccurrence inp g n := by
+    (g : Nat → Nat) (n : Nat → Int × Int × Int) (h : RigidOccurrence inp epsSq g n)
+    (hinj : ∀ i j, j < i → i < inp.ppos.length → g j ≠ g i) : DistOccurrence inp g n := by
   rcases h.fit with ⟨R, t, hR, hfit⟩
-  refine { idx_lt := h.idx_lt, home := h.home, elem := h.elem, dist := fun i j hji hi => ?_ }
+  refine { idx_lt := h.idx_lt, inj := hinj, home := h.home, elem := h.elem, dist := fun i j hji hi => ?_ }
   have hi' := hfit i hi
   have hj' := hfit j (by omega)
   have hiso : distSq (inp.ppos.getD i Vec3.zero) (inp.ppos.getD j Vec3.zero)
